@@ -1,10 +1,11 @@
 import Pcore.Model.Dispatch
 /-!
-# Four constructors on the driver's alphabet (property C16, `new`)
+# The constructors of Integer, Boolean, Array/Tuple and Hash/Struct on the driver's alphabet (property C16, `new`)
 
 `new` = receiver resolution + the constructor's dispatch table (built by the same builder calls as any function) + the body
 of the dispatch that matched + `AssertInstance(receiver, result)`.  Modelled constructors, restricted to the alphabet
-values (Integer, String, Boolean, Undef, Default, Array — no Float, Hash, Timespan, Timestamp, Binary):
+values (Integer, Float, String, Boolean, Undef, Default, Array, Hash — no Timespan, Timestamp, Binary).  The Float and Numeric
+constructors are in Model/CtorNum.lean; the constructor lookup (`ctorOf`) and `newModel` in Model/CtorNew.lean:
 
 | Go                                                        | Lean                         |
 |-----------------------------------------------------------|------------------------------|
@@ -18,7 +19,6 @@ values (Integer, String, Boolean, Undef, Default, Array — no Float, Hash, Time
 | types/hashtype.go `WrapHashFromArray`                     | `hashFromArray`              |
 | types/stringtype.go `stringValue.Elements` + `WrapValues` | `stringElements`             |
 | types/inittype.go `InitType.New` (without init arguments) | `initCall`                   |
-| types/types.go `newInstance` constructor lookup by `Name()` | `ctorOf`, `recvOf`         |
 
 Quirks reproduced
 * `Convertible` admits a string only through `Pattern[/IntegerPattern/]` = sign, blanks, then `\d+`, `0x…` or `0b…`:
@@ -26,11 +26,14 @@ Quirks reproduced
   given radix, so `"0x1F"` is 31 with radix 16 and `NOT_INTEGER` with the default radix 10, `"0b11"` is 3 with radix 2 and
   2833 with radix 16 (`b` is a hexadecimal digit); `"017"` is decimal 17 unless the radix is 8.
 * a radix argument that is `default` leaves 10; `abs` of the minimum integer stays negative (`-n` wraps).
-* the `NamedArgs` dispatch (a Struct) has no instance among the alphabet values: its parameter type is `never` here.
+* the `NamedArgs` dispatch takes one hash `{from => Convertible, Optional[radix] => Radix, Optional[abs] => Boolean}`; its
+  body reads the hash with `Get4`/`Get5`, which the model does with `lookupKey` (the Struct test has already established
+  that the keys are distinct strings).
+* `Integer.new(float)` is Go's `int64(f)`: truncation, and MinInt64 for NaN, the infinities and everything outside int64
+  (the amd64 conversion; implementation-defined in the Go specification — `F64.toInt64`).
+* `Timespan` and `Timestamp` in `Convertible` have no values in the alphabet: they are written `never`.
 * `Array.new(string)`: `Elements()` sizes the slice by bytes and fills it by rune index, so any non-ASCII character
   leaves a nil slot and `WrapValues` reports `NIL_ARRAY_ELEMENT`.
-* `String` has a constructor that is *not* modelled (formatting): `ctorOf` answers `unmodelled` and the driver refuses
-  the op (the generator never emits it).
 -/
 namespace Pcore.Dispatch.Alpha
 
@@ -85,6 +88,7 @@ def integerFromString (s : String) (radix : Nat) : Option Int :=
 def intFromConvertible (from_ : Val) (radix : Nat) : CtorResult Val :=
   match from_ with
   | .int n => .value (.int n)
+  | .float b => .value (.int (F64.toInt64 b))
   | .bool b => .value (.int (if b then 1 else 0))
   | .str s => match integerFromString s radix with
     | some n => .value (.int n)
@@ -96,7 +100,7 @@ structure Ctor where
   creators : List (Creator Ty BTy)
   body : Nat → List Val → CtorResult Val
 
-def convertible : Ty := .var [.int none none, .bool, .intPat]
+def convertible : Ty := .var [.numeric, .bool, .intPat, .never, .never]
 def radixTy : Ty := .var [.default, .int (some 2) (some 2), .int (some 8) (some 8), .int (some 10) (some 10), .int (some 16) (some 16)]
 
 /-- `args[i].(booleanValue).Bool()`: a failed type assertion is a fault -/
@@ -114,24 +118,50 @@ def absOf : List Val → Option Bool
   | _ :: a2 :: _ => asBool a2
   | _ => some false
 
+/-- `if abs && n < 0 { n = -n }` on int64: the minimum integer stays negative -/
+def absInt (abs : Bool) (n : Int) : Int := if abs && n < 0 && n ≠ minInt then -n else n
+
+/-- `n := intFromConvertible(…); if abs && n < 0 { n = -n }; return integerValue(n)` on the outcome of the conversion -/
+def applyAbs (abs : Bool) : CtorResult Val → CtorResult Val
+  | .value (.int n) => .value (.int (absInt abs n))
+  | other => other
+
 def integerBody0 (a0 : Val) (rest : List Val) : CtorResult Val :=
   match absOf rest with
   | none => .fault
-  | some abs =>
-    match intFromConvertible a0 (radixOf rest) with
-    | .value (.int n) => .value (.int (if abs && n < 0 && n ≠ minInt then -n else n))
-    | other => other
+  | some abs => applyAbs abs (intFromConvertible a0 (radixOf rest))
 
-def boolParam : Ty := .var [.int none none, .bool, .enumci ["false", "true", "yes", "no", "y", "n"]]
-def arrayParam : Ty := .var [.arr .any 0 none, .str 0 none]
+/-- `if rx, ok := h.Get4("radix"); ok { if radix, ok := rx.(integerValue); ok { r = int(radix) } }` -/
+def namedRadix (es : List (Val × Val)) : Nat :=
+  match lookupKey "radix" es with
+  | some (.int n) => n.toNat
+  | _ => 10
+
+def integerNamedArgs : Ty := .struct [("from", false, convertible), ("radix", true, radixTy), ("abs", true, .bool)]
+
+/-- the `NamedArgs` body: `h.Get4("radix")` (an integer sets the radix), `h.Get4("abs")` (`.(booleanValue)`: a failed
+    assertion is a fault), `h.Get5("from", undef)` -/
+def integerBody1 (es : List (Val × Val)) : CtorResult Val :=
+  let abs? : Option Bool := match lookupKey "abs" es with
+    | some a => asBool a
+    | none => some false
+  match abs? with
+  | none => .fault
+  | some abs => applyAbs abs (intFromConvertible ((lookupKey "from" es).getD .undef) (namedRadix es))
+
+def boolParam : Ty := .var [.int none none, .float (-F64.maxFiniteKey) F64.maxFiniteKey, .bool, .enumci ["false", "true", "yes", "no", "y", "n"]]
+/-- `Variant[Array,Hash,Binary,Iterable]`: Binary has no value in the alphabet (`never`); `Iterable` on the alphabet is
+    arrays, hashes and strings (the `px.Indexed` values) -/
+def arrayParam : Ty := .var [.arr .any 0 none, .hash .any .any 0 none, .never, .var [.arr .any 0 none, .hash .any .any 0 none, .str 0 none]]
 
 def integerCtor : Ctor where
   creators :=
     [ { ops := [.param convertible, .optional radixTy, .optional .bool], kind := .fn },
-      { ops := [.param .never], kind := .fn } ]            -- NamedArgs (a Struct): no instance in the alphabet
+      { ops := [.param integerNamedArgs], kind := .fn } ]
   body := fun i args =>
     match i, args with
     | 0, a0 :: rest => integerBody0 a0 rest
+    | 1, .hash es :: _ => integerBody1 es
     | _, _ => .fault      -- args[0] of an empty list; args[0].(*Hash) of the NamedArgs body
 
 def booleanCtor : Ctor where
@@ -139,6 +169,7 @@ def booleanCtor : Ctor where
   body := fun _ args =>
     match args with
     | .int n :: _ => .value (.bool (n ≠ 0))
+    | .float f :: _ => .value (.bool (!F64.isZero f))
     | .bool b :: _ => .value (.bool b)
     | .str s :: _ => let l := lowerAscii s; .value (.bool (!(l = "false" || l = "no" || l = "n")))
     | _ => .fault         -- args[0] of an empty list; `arg.String()` of other kinds is not modelled
@@ -148,7 +179,9 @@ def stringElements (s : String) : CtorResult Val :=
   if s.toList.all (fun c => c.toNat < 128) then .value (.arr (s.toList.map fun c => .str (String.singleton c)))
   else .reported "NIL_ARRAY_ELEMENT"
 
-/-- `Iterable` on the alphabet: arrays and strings are `px.Indexed` -/
+/-- `Hash.AsArray()`: the entries as `[key, value]` arrays -/
+def hashAsArray (es : List (Val × Val)) : Val := .arr (es.map fun e => .arr [e.1, e.2])
+
 def arrayCtor : Ctor where
   creators := [ { ops := [.param arrayParam, .optional .bool], kind := .fn } ]
   body := fun _ args =>
@@ -160,6 +193,7 @@ def arrayCtor : Ctor where
           | some true => .value (.arr [.arr vs])
           | some false => .value (.arr vs))
        | [] => .value (.arr vs))
+    | .hash es :: _ => .value (hashAsArray es)   -- arg.(px.Arrayable).AsArray(); the wrap flag only counts for an array
     | .str s :: _ => stringElements s
     | _ => .fault                                 -- arg.(px.Arrayable) of a value that is not; args[0] of an empty list
 
@@ -213,22 +247,6 @@ def hashCtor : Ctor where
         | other => other)
     | _, _ => .fault
 
-inductive CtorLookup where
-  | none                    -- no constructor is registered under the type's name
-  | unmodelled              -- there is one, but this model does not cover it (String)
-  | some (c : Ctor)
-
-/-- `px.Load(c, NewTypedName(NsConstructor, typ.Name()))` -/
-def ctorOf : Ty → CtorLookup
-  | .int _ _ => .some integerCtor
-  | .bool => .some booleanCtor
-  | .arr _ _ _ => .some arrayCtor
-  | .tuple _ => .some arrayCtor
-  | .hash _ _ _ _ => .some hashCtor
-  | .struct _ => .some hashCtor
-  | .str _ _ => .unmodelled
-  | _ => .none
-
 /-- `ctor.Call(c, nil, args...)`: first matching dispatch, then its body -/
 def ctorCall (c : Ctor) (args : List Val) : CtorResult Val :=
   match run inst binst c.creators args (none : Option Blk) with
@@ -249,29 +267,5 @@ def initCall (c : Ctor) (args : List Val) : CtorResult Val :=
   else match args with
     | [.arr vs] => ctorCall c vs
     | _ => ctorCall c args
-
-/-- the receiver of the `newm` op: a type of the alphabet, `Init[T]` or the default `Init` -/
-inductive RecvTy where
-  | plain (t : Ty)
-  | init (t : Ty)
-  | initDefault
-
-def recvOf : RecvTy → Option (Recv Ty Val)
-  | .plain t => match ctorOf t with
-    | .some c => some (.ctor t (ctorCall c))
-    | .none => some (.noCtor t)
-    | .unmodelled => none
-  | .init t => match ctorOf t with
-    | .some c => some (.init t (initCall c))
-    | .none => some .initNoCtor
-    | .unmodelled => none
-  | .initDefault => some .initDefault
-
-def newModel (r : RecvTy) (args : List Val) : Option (NewOutcome Val) :=
-  match recvOf r with
-  | none => none
-  | some recv => match newInstance inst recv args with
-    | .reported "UNMODELLED" => none
-    | o => some o
 
 end Pcore.Dispatch.Alpha
